@@ -332,7 +332,7 @@ TRIPLE_CLASSES = ["random", "random", "random", "del_vs_edit", "del_vs_edit", "i
                   "minor_diff", "retype", "empty_source", "both_append_outputs", "exec_count", "fixture",
                   "nbmeta_conflict", "out_meta_conflict", "multi_line_meta", "del_vs_transient", "del_vs_transient",
                   "both_insert_lists", "nul_in_source", "same_insert_edit_below", "transient_meta_conflict",
-                  "del_vs_output_edit", "large_outputs", "long_notebook", "wide_metadata", "both_rerun", "both_rerun", "same_size_sides"]
+                  "del_vs_output_edit", "large_outputs", "long_notebook", "wide_metadata", "both_rerun", "both_rerun", "same_size_sides", "repeated_content"]
 
 
 def merge_triple(gen, cls=None, minor=None, plain_eol=False):
@@ -667,6 +667,36 @@ def merge_triple(gen, cls=None, minor=None, plain_eol=False):
         elif mode == "same_line":
             rem["cells"][pos]["source"] = c["source"].replace("a = 1", "a = %d" % r.choice([4, 5]))
         info = {"pos": pos, "mode": mode}
+    elif cls == "repeated_content":
+        # the same output / metadata block / (id-less) cell occurs in several places of the base; each side changes ONE
+        # occurrence (deep inside it)
+        warn = {"output_type": "stream", "name": "stderr", "text": "UserWarning: deprecated call\n  warnings.warn(msg)\n"}
+        meta = {"tags": ["setup"], "editable": False}
+        pos = sorted(r.sample(range(len(base["cells"]) + 1), min(2, len(base["cells"]) + 1)))
+        n_occ = r.choice([2, 3])
+        new_cells = []
+        for j in range(n_occ):
+            c = _code_cell(gen, m, "import lib\nlib.call(%d)\n" % (j if r.random() < 0.5 else 0), [copy.deepcopy(warn)])
+            c["execution_count"] = None
+            c["metadata"] = copy.deepcopy(meta)
+            new_cells.append(c)
+        for nb in (base, loc, rem):
+            for j, c in enumerate(new_cells):
+                nb["cells"].insert(min(pos[0] + 2 * j, len(nb["cells"])), copy.deepcopy(c))
+        where = [i for i, c in enumerate(base["cells"]) if c.get("source", "").startswith("import lib")]
+        li, ri = r.choice(where), r.choice(where)
+        what = r.choice(["output_text", "output_text", "metadata", "source"])
+        for side, nb, i in (("local", loc, li), ("remote", rem, ri)):
+            c = nb["cells"][i]
+            if what == "output_text":
+                c["outputs"][0]["text"] = c["outputs"][0]["text"].replace("deprecated", "deprecated (%s)" % side)
+            elif what == "metadata":
+                c["metadata"]["tags"] = c["metadata"]["tags"] + [side]
+            else:
+                c["source"] += "# %s\n" % side
+            if r.random() < 0.3:
+                break
+        info = {"occurrences": where, "local_edits": li, "remote_edits": ri, "what": what}
     elif cls == "nul_in_source":
         # a NUL character inside a source (valid JSON, valid notebook): external text tools treat the text as binary
         lines = ["line one of %d" % r.randrange(99), "binary \x00 payload pasted here", "line three", "line four"]
